@@ -9,7 +9,7 @@ use zeromq::{Endpoint, ZmqError};
 use zvcore::evidence::{Check, Tier};
 use zvcore::refcodec as rc;
 
-const OPS: [&str; 9] = ["bind-tcp4", "bind-tcp6", "bind-localhost", "bind-ipc", "bind-duplicate", "unbind-oldest", "unbind-unknown", "connect-in-each", "exchange-established"];
+const OPS: [&str; 10] = ["bind-tcp4", "bind-tcp6", "bind-localhost", "bind-ipc", "bind-duplicate", "unbind-oldest", "unbind-unknown", "connect-in-each", "exchange-established", "rebind-last-unbound"];
 
 struct Client {
     s: RawStream,
@@ -140,6 +140,20 @@ async fn run_sequence(ty: Ty, seq: &[u8]) -> Vec<(String, String)> {
                     }
                 }
             }
+            9 => {
+                // an endpoint that was unbound is free again: binding its text form must succeed and give the same endpoint
+                if let Some(ep) = ever.iter().rev().find(|e| !model.contains(e)).cloned() {
+                    match sock.bind(&ep.to_string()).await {
+                        Ok(got) => {
+                            if got != ep {
+                                viol.push(("rebind/different-endpoint".into(), format!("{}: binding {} again returned {}", at, ep, got)));
+                            }
+                            model.push(got);
+                        }
+                        Err(e) => viol.push(("rebind/failed".into(), format!("{}: {} was unbound earlier but binding it again failed: {}", at, ep, e))),
+                    }
+                }
+            }
             _ => {
                 for c in clients.iter_mut() {
                     if let Err(e) = exchange(ty, &mut sock, c, "old").await {
@@ -192,6 +206,9 @@ fn sequences(max_len: usize) -> Vec<Vec<u8>> {
                     continue;
                 }
                 if op == 8 && !s.contains(&7) {
+                    continue;
+                }
+                if op == 9 && !s.contains(&5) {
                     continue;
                 }
                 let mut t = s.clone();
